@@ -63,8 +63,13 @@ def five_points(fam):
 def verify(rep, guards, fam, impl, fn, operands_factory, expect_keys, case, probes=()):
     """Call multiunion on fresh operands and compare."""
     setname = fam + 'Set'
+    def snap(o):
+        if isinstance(o, int) or (hasattr(o, '__next__')):
+            return None
+        return list(o.keys()) if hasattr(o, 'keys') else list(o)
     try:
         ops = operands_factory()
+        before = [snap(o) for o in ops]
         r = fn(ops)
     except Exception as e:      # noqa
         rep.add(dict(site='multiunion', cls='exc-' + type(e).__name__, impl=impl, fam=fam,
@@ -104,6 +109,20 @@ def verify(rep, guards, fam, impl, fn, operands_factory, expect_keys, case, prob
         if list(r.keys(a, b)) != [k for k in want if a <= k <= b]:
             rep.add(dict(site='multiunion', cls='range', impl=impl, fam=fam, part=case['part']), case,
                     'result.keys(%r, %r) wrong' % (a, b))
+    # the operands are inputs only: unchanged by the call, and not aliased by the result (emptying the
+    # result afterwards must not reach them either)
+    guards['operands_unchanged_checked'] += 1
+    after = [snap(o) for o in ops]
+    if after == before and tn == setname and case['part'] == 'small':
+        try:
+            r.clear()
+            after = [snap(o) for o in ops]
+        except Exception as e:      # noqa
+            after = repr(e)
+    if after != before:
+        rep.add(dict(site='multiunion', cls='operand-modified', impl=impl, fam=fam, part=case['part']),
+                case, 'operands before %r, after the call (and clearing the result) %r'
+                % (before[:4], after[:4] if isinstance(after, list) else after))
 
 
 def build(fam, impl, form, keys):
